@@ -99,10 +99,16 @@ def c06_lattice_cases(tier, seed):
         cases.append({"family": "cut", "base": b, "cut": cut})
     for name in ["two_triangles", "tri_square_pent", "tutte_graph", "bridge_graph"]:
         cases.append({"family": "example", "name": name})
+    # large open / strip cuts with dense targets: many greedy paths, several of them through the same bond
+    # (a bond on three paths must be flipped three times = once; batching slips only show there)
+    for i in range(6 if tier == "quick" else 30):
+        b = {"family": "voronoi", "style": gen.POINT_STYLES[i % 4], "n": int(rng.integers(150, 260)),
+             "seed": int(rng.integers(0, 2**31)), "shift": bool(i % 2)}
+        cases.append({"family": "cut", "base": b, "cut": [[True, True], [True, False], [False, True]][i % 3], "dense": True})
     return cases
 
 
-def targets_for(lat, rng, tier, exhaustive_max):
+def targets_for(lat, rng, tier, exhaustive_max, dense=False):
     """list of (target or None, guess or None)"""
     F, E = lat.n_plaquettes, lat.n_edges
     out = [(None, None)]                       # default arguments
@@ -114,9 +120,9 @@ def targets_for(lat, rng, tier, exhaustive_max):
             t = np.array([1 - 2 * ((mask >> i) & 1) for i in range(F)], dtype=np.int8)
             out.append((t, None if mask % 2 else g))
     else:
-        k = 6 if tier == "quick" else 24
+        k = (6 if tier == "quick" else 24) if not dense else 12
         for j in range(k):
-            dens = [0.03, 0.1, 0.5, 0.9, 0.97, 0.5][j % 6]
+            dens = [0.03, 0.1, 0.5, 0.9, 0.97, 0.5][j % 6] if not dense else [0.5, 0.4, 0.6][j % 3]
             t = np.where(rng.uniform(size=F) < dens, -1, 1).astype(np.int8 if j % 2 == 0 else np.int64)
             out.append((t, rnd_guess() if j % 3 else None))
     return out
@@ -318,7 +324,7 @@ def evaluate(ctx, cases, label, exhaustive_max):
             res.skip("plaquette-graph-empty-or-not-connected")
             continue
         rng = np.random.default_rng([ctx.seed, 600 + ci])
-        eval_lattice(ctx, case, lat, targets_for(lat, rng, ctx.tier, exhaustive_max), label)
+        eval_lattice(ctx, case, lat, targets_for(lat, rng, ctx.tier, exhaustive_max, dense=case.get("dense", False)), label)
 
 
 # ------------------------------------------------------------------ make_amorphous / make_honeycomb
